@@ -18,6 +18,7 @@ from .pgraph import Ctx
 from .vm import to_bv, cells_to_val, Inconclusive, Terminal
 
 LABS = ('alpha', 'greek', 'str')
+LABS4 = ('alpha', 'greek', 'shared', 'str', 'distinct')
 
 
 def label_kind_assume(st, L, lab):
@@ -81,6 +82,12 @@ def setup_struct(env, N, cap, edges, present, lab, grouped=None, fixed_extra=Non
         for k, m in enumerate(ms):
             fx['m%d_%d' % (b, k)] = m
     fx.update(fixed_extra or {})
+    if lab in ('shared', 'distinct'):
+        # constant labels: 'shared' gives edge j of EVERY vertex the label Alpha(j) (the same label on different vertices),
+        # 'distinct' a different one everywhere; code that hashes or orders labels then runs concretely
+        for i in range(cap):
+            for j in range(N):
+                fx['lab%d_%d' % (i, j)] = {'a': j} if lab == 'shared' else ({'a': i * N + j} if (i + j) % 2 else {'g': 0x3B2 + i * N + j})
     c = Ctx(env, N, cap, fixed=fx)
     st = c.pre.fork()
     for i in range(cap):
@@ -292,13 +299,16 @@ def tasks(tier):
         for e in all3:          # every edge structure of three vertices with up to two edges each, one start vertex each
             if e in CURATED3:
                 continue
-            add(2, 3, e, k % 3, labs[k % 3], 'slice_some', seed=(0x42, 0x17)[k % 2]); k += 1
+            add(2, 3, e, k % 3, LABS4[k % 5], 'slice_some', seed=(0x42, 0x17)[k % 2]); k += 1
         for e in rnd.sample(all4, 40):
-            add(2, 4, e, k % 4, labs[k % 3], 'slice_some', seed=(0x42, 0x17)[k % 2]); k += 1
+            add(2, 4, e, k % 4, LABS4[k % 5], 'slice_some', seed=(0x42, 0x17)[k % 2]); k += 1
+        for e in CURATED3 + CURATED4:       # constant labels, the same on different vertices
+            add(2, len(e), e, 0, 'shared', 'slice_some'); k += 1
+            add(2, len(e), e, 1, 'shared', 'slice_some', seed=0x17); k += 1
     else:
         for e in all3:
             for start in range(3):
-                add(2, 3, e, start, labs[k % 3], 'slice_some', seed=(0x42, 0x17, 0x99)[k % 3]); k += 1
+                add(2, 3, e, start, LABS4[k % 5], 'slice_some', seed=(0x42, 0x17, 0x99)[k % 3]); k += 1
             add(2, 3, e, k % 3, labs[k % 3], 'slice'); k += 1
         for e in CURATED4:
             for start in range(4):
